@@ -17,7 +17,7 @@ P = {
  "C05": ("unrestricted grammar: every path runs under catch_unwind with overflow checks; reported spans must satisfy start<=end<=len on character boundaries (decided on the symbolic lead-byte constraints)", "2 C05"),
  "C07": ("unlimited run's backtrack count b is concrete on each path; limits {0,1,2,3,5,10,100,10^6,b-1,b} re-run under the same path condition: BacktrackLimitExceeded or the unlimited answer, exact threshold at b; step bound; no limit error with default limits when the reference exploration is tiny", "2 C07"),
  "C13": ("(a) for every sub-expression: all match lengths the reference matcher can produce on the symbolic text vs the analyzer's min_size/const_size; (b) realisable lengths of each look-behind alternative vs acceptance by the real compiler; (c) differential of accepted look-behind patterns with the reference over multi-byte layouts", "2 C13"),
- "C14": ("twin programs: P built with case_insensitive(true) vs (?i)P, same symbolic text (all byte values, so both cases of every letter)", "2 C14"),
+ "C14": ("twin programs: P built with case_insensitive(true) vs (?i)P, same symbolic text (all byte values, so both cases of every letter); builder options: delegate size limits accepted/rejected exactly as regex-automata judges each delegated piece, in either order of the calls (concrete per pattern), default vs generous limits as twin programs", "2 C14"),
  "C15": ("as C02 with both conditional forms at every nesting position; refsem implements the documented rule", "2 C15"),
  "C17": ("escape(s) for every s up to 2 (quick) / 3 (thorough) characters over the meta characters + letter, digit, space, '-', 2/3/4-byte characters, alone and embedded in plain and fancy hosts: reported span equals the first literal occurrence of s on the symbolic text", "2 C17"),
  "C19": ("twin programs: default spelling vs respelling (possessive sugar, named groups and \\k<>, relative backrefs, ^/$ vs \\A/\\z, hex escapes, free-spacing, comments, inline flags) printed from the parsed tree; tree equality checked concretely, behaviour on symbolic text", "2 C19"),
